@@ -611,6 +611,16 @@ func uninitMatrix() {
 			switch {
 			case zero == 0:
 				in[0] = reflect.ValueOf(new(Point))
+			case zero >= 400: // ONE zero-value object in every *Point argument position (valid receiver)
+				z := reflect.ValueOf(new(Point))
+				for a := 1; a < len(in); a++ {
+					if mt.In(a) == pt {
+						in[a] = z
+					}
+				}
+			case zero >= 300: // the SAME zero-value object is the receiver and argument zero-300 (z.Op(z, ...), z.Equal(z))
+				z := reflect.ValueOf(new(Point))
+				in[0], in[zero-300] = z, z
 			case zero >= 200: // element of a []*Point, paired with a ZERO scalar at the same index
 				s := in[zero-200].Interface().([]*Point)
 				s[1] = new(Point)
@@ -655,6 +665,14 @@ func uninitMatrix() {
 				n++
 				if !call(a) {
 					R.Fail(fmt.Sprintf("uninit/%s/arg %d zero-value accepted", m.Name, a), "misc", map[string]any{"method": m.Name, "arg": a, "what": "uninitialised Point operand did not panic"}, nil)
+				}
+				R.T(2)
+				n += 2
+				if !call(300 + a) {
+					R.Fail(fmt.Sprintf("uninit/%s/arg %d zero-value accepted when it is also the receiver", m.Name, a), "misc", map[string]any{"method": m.Name, "arg": a, "what": "the same uninitialised Point as receiver and operand did not panic"}, nil)
+				}
+				if !call(400) {
+					R.Fail(fmt.Sprintf("uninit/%s/one zero-value object in every point argument accepted", m.Name), "misc", map[string]any{"method": m.Name, "what": "uninitialised Point operand (the same object in every argument position) did not panic"}, nil)
 				}
 			case reflect.TypeOf([]*Point(nil)):
 				R.T(1)
